@@ -71,7 +71,7 @@ theorem fitScoreAt_eq (S : Matrix) (r q : List Nat) (e : Nat) (he : e ≤ r.leng
   have := fill_cell S true r q e q.length he (Nat.le_refl _)
   simpa [fitScoreAt, fitTable, cellG] using this
 
-theorem fit_opt (S : Matrix) (hg : GapsNonPos S) (r q : List Nat) (e : Nat) (he : e ≤ r.length) :
+theorem fit_opt (S : Matrix) (r q : List Nat) (hg : ∀ x ∈ r, S x 0 ≤ 0) (e : Nat) (he : e ≤ r.length) :
     (∀ a, IsFitted a r q e → scoreLin S a ≤ fitScoreAt S r q e) ∧
     ∃ a, IsFitted a r q e ∧ scoreLin S a = fitScoreAt S r q e := by
   rw [fitScoreAt_eq S r q e he]
@@ -80,7 +80,8 @@ theorem fit_opt (S : Matrix) (hg : GapsNonPos S) (r q : List Nat) (e : Nat) (he 
     have hp : ((r.take e).drop i).reverse <+: (r.take e).reverse := by
       refine ⟨((r.take e).take i).reverse, ?_⟩
       rw [← List.reverse_append, List.take_append_drop]
-    have := fitRec_upper S hg a.reverse _ _ _ hp (isGlobal_reverse h)
+    have := fitRec_upper S a.reverse _ _ _
+      (fun x hx => hg x (List.mem_of_mem_take (List.mem_reverse.mp hx))) hp (isGlobal_reverse h)
     rwa [scoreLin_reverse] at this
   · obtain ⟨r', a, ⟨t, ht⟩, h, hs⟩ := fitRec_attain S (r.take e).reverse q.reverse
     have hX : r.take e = t.reverse ++ r'.reverse := by
@@ -98,9 +99,9 @@ theorem fit_opt (S : Matrix) (hg : GapsNonPos S) (r q : List Nat) (e : Nat) (he 
 
 /-! ### SW -/
 
-theorem sw_cell_le (S : Matrix) (hg : GapsNonPos S) (r q : List Nat) (i j : Nat)
+theorem sw_cell_le (S : Matrix) (r q : List Nat) (hg : GapsNonPos S r q) (i j : Nat)
     (hi : i ≤ r.length) (hj : j ≤ q.length) : cellS S r q i j ≤ swScore S r q := by
-  have hb := (swFill_bound S hg r q).2
+  have hb := (swFill_bound S r q hg).2
   rw [swFill_fst] at hb
   have h1 := rowsSpec_get (swRec S) q r [] i hi
   have h2 := rowSpec_get (swRec S ((r.take i).reverse ++ [])) q j hj
@@ -134,19 +135,22 @@ theorem sw_best_cell (S : Matrix) (r q : List Nat) :
     rw [hr, rowSpec_get _ _ _ hj] at hp
     simpa [cellS] using hp
 
-theorem sw_opt (S : Matrix) (hg : GapsNonPos S) (r q : List Nat) :
+theorem sw_opt (S : Matrix) (r q : List Nat) (hg : GapsNonPos S r q) :
     (∀ a, IsLocal a r q → scoreLin S a ≤ swScore S r q) ∧
     ∃ a, IsLocal a r q ∧ scoreLin S a = swScore S r q := by
   constructor
   · intro a ⟨r₁, r₂, r₃, q₁, q₂, q₃, hr, hq, h⟩
     have hi : (r₁ ++ r₂).length ≤ r.length := by rw [hr]; simp
     have hj : (q₁ ++ q₂).length ≤ q.length := by rw [hq]; simp
-    have hcell := sw_cell_le S hg r q _ _ hi hj
+    have hcell := sw_cell_le S r q hg _ _ hi hj
     have htr : r.take (r₁ ++ r₂).length = r₁ ++ r₂ := by rw [hr]; exact List.take_left' rfl
     have htq : q.take (q₁ ++ q₂).length = q₁ ++ q₂ := by rw [hq]; exact List.take_left' rfl
     have hpr : r₂.reverse <+: (r₁ ++ r₂).reverse := ⟨r₁.reverse, by simp⟩
     have hpq : q₂.reverse <+: (q₁ ++ q₂).reverse := ⟨q₁.reverse, by simp⟩
-    have := swRec_upper S hg a.reverse _ _ _ _ hpr hpq (isGlobal_reverse h)
+    have := swRec_upper S a.reverse _ _ _ _
+      (fun x hx => hg.1 x (by rw [hr]; simp at hx ⊢; rcases hx with hx | hx <;> simp [hx]))
+      (fun x hx => hg.2 x (by rw [hq]; simp at hx ⊢; rcases hx with hx | hx <;> simp [hx]))
+      hpr hpq (isGlobal_reverse h)
     rw [scoreLin_reverse] at this
     simp only [cellS, htr, htq] at hcell
     omega
